@@ -362,7 +362,7 @@ int main(int argc, char** argv){
     const Args args = Args::parse(argc, argv);
     const bool thorough = (args.tier == "thorough");
     return supervise(args, "C14", [&](Report& rep, Progress& pg){
-        const int depth = thorough ? 4 : 3;
+        const int depth = thorough ? 5 : 3;
         unsigned long ord = 0;
         auto mine = [&](){ return (ord++) % args.nbSlices == args.slice; };
         if(mine()) BlockSearch<TbfMemoryScalar<H8>>::search("<scalar(8)>", depth, rep, pg);
